@@ -271,12 +271,30 @@ impl Scenario for Hist {
         Hist { sut: Sut::new(), world: World::default(), sw: sw.clone(), setup: Vec::new(), begin_snap: None, begin_world: None, sp_stack: Vec::new(), dead_savepoints: Vec::new() }
     }
 
-    fn next_op(&mut self, rng: &mut Rng, _cx: &mut Ctx) -> Option<Op> {
+    fn next_op(&mut self, rng: &mut Rng, cx: &mut Ctx) -> Option<Op> {
         // setup phase: create the tables first
         if self.world.tables.is_empty() && self.setup.is_empty() && self.world.next_name == 0 {
             if self.sw.with_fk {
                 for d in gen_fk_tables(rng, &self.sw) {
-                    self.setup.push(Op::create_table(d));
+                    // CREATE TABLE cannot reference the table being created: a self-referencing
+                    // foreign key is added with ALTER TABLE afterwards
+                    let (selfs, others): (Vec<Fk>, Vec<Fk>) = d.fks.iter().cloned().partition(|f| f.parent == d.name);
+                    let mut base = d.clone();
+                    base.fks = others;
+                    self.setup.push(Op::create_table(base.clone()));
+                    for (i, f) in selfs.iter().enumerate() {
+                        let mut sql = format!("ALTER TABLE {} ADD CONSTRAINT fk_self{} FOREIGN KEY ({}) REFERENCES {}({})", d.name, i, d.cols[f.col].name, f.parent, f.parent_col);
+                        if let Some(a) = f.on_delete {
+                            sql.push_str(&format!(" ON DELETE {}", a.sql()));
+                        }
+                        if let Some(a) = f.on_update {
+                            sql.push_str(&format!(" ON UPDATE {}", a.sql()));
+                        }
+                        base.fks.push(f.clone());
+                        let mut op = Op::new(Kind::Alter, sql).table(&d.name);
+                        op.def = Some(base.clone());
+                        self.setup.push(op);
+                    }
                 }
             } else {
                 for i in 0..self.sw.n_tables {
@@ -299,6 +317,7 @@ impl Scenario for Hist {
                 return Some(Op::create_table(gen_table(rng, &sw, &name)));
             }
         };
+        let mut cx_veto = false;
         let no_ddl_now = self.world.in_tx && (sw.with_savepoints || sw.guard("no_ddl_in_tx"));
         let weights = [
             sw.w_insert,
@@ -310,7 +329,7 @@ impl Scenario for Hist {
             if sw.ddl_in_history && !no_ddl_now { sw.w_ddl } else { 0 },
             if sw.with_analyze && !no_ddl_now { 1 } else { 0 },
         ];
-        Some(match rng.weighted(&weights) {
+        let chosen = match rng.weighted(&weights) {
             0 => {
                 let mut op = gen_insert(rng, &sw, &self.sut, &def, None);
                 if !def.fks.is_empty() {
@@ -318,8 +337,37 @@ impl Scenario for Hist {
                 }
                 op
             }
-            1 => gen_update(rng, &sw, &self.sut, &def, o),
-            2 => gen_delete(rng, &sw, &self.sut, &def, o),
+            1 => {
+                let mut op = gen_update(rng, &sw, &self.sut, &def, o);
+                if sw.guard("c12_no_key_update_on_self_ref") {
+                    // known finding C12-selfref-key-update: keep the referenced key of a
+                    // self-referencing table out of SET lists
+                    let keycols: Vec<String> = def.fks.iter().filter(|f| f.parent == def.name).map(|f| f.parent_col.clone()).collect();
+                    if op.sets.iter().any(|(c, _)| keycols.contains(c)) {
+                        let sets: Vec<(String, String)> = op.sets.iter().filter(|(c, _)| !keycols.contains(c)).cloned().collect();
+                        if sets.is_empty() {
+                            op = Op::update(&def.name, vec![("c2".into(), "c2".into())], op.pred.clone());
+                        } else {
+                            op = Op::update(&def.name, sets, op.pred.clone());
+                        }
+                        cx_veto = true;
+                    }
+                }
+                op
+            }
+            2 => {
+                let self_ref = def.fks.iter().any(|f| f.parent == def.name);
+                if self_ref && rng.chance(1, 2) {
+                    // delete an old row of a self-referencing table (likely the root of a subtree)
+                    let keys = existing_values(&self.sut, &def.name, 0);
+                    match keys.iter().take(3).nth(rng.usize(3.min(keys.len().max(1)))) {
+                        Some(k) => Op::delete(&def.name, Some(format!("c0 = {}", k.sql()))),
+                        None => gen_delete(rng, &sw, &self.sut, &def, o),
+                    }
+                } else {
+                    gen_delete(rng, &sw, &self.sut, &def, o)
+                }
+            }
             3 => Op::new(Kind::Truncate, format!("TRUNCATE TABLE {}", def.name)).table(&def.name),
             4 => {
                 let existing = self.world.indexes_of(&def.name).len();
@@ -392,7 +440,11 @@ impl Scenario for Hist {
                 }
             }
             _ => Op::new(Kind::Analyze, format!("ANALYZE {}", def.name)).table(&def.name),
-        })
+        };
+        if cx_veto {
+            cx.rep.count("guard_veto.c12_no_key_update_on_self_ref");
+        }
+        Some(chosen)
     }
 
     fn step(&mut self, op: &Op, cx: &mut Ctx) -> Step {
